@@ -48,6 +48,7 @@ class _Interp:
                  consts: dict | None = None, resolve: str = '_resolve_path') -> None:
         self.cls, self.fn, self.chain = cls, fn, chain
         self.resolve = resolve                                 # name of the method that decides containment
+        self.module_funcs: dict[str, ast.FunctionDef] = (helpers or {}).get('=module', {}) if helpers else {}
         self.helpers = helpers or {}                           # methods of the same class, inlined at `self.m(...)` calls
         self.consts = consts or {}                             # module-level NAME = 'string constant'
         self.stack: list[str] = [fn.name]                      # methods being inlined (recursion fails closed)
@@ -147,7 +148,7 @@ class _Interp:
             return '/'
         return None
 
-    def inline(self, n: ast.Call, fn: ast.FunctionDef, env: dict) -> frozenset:
+    def inline(self, n: ast.Call, fn: ast.FunctionDef, env: dict, static: bool = False) -> frozenset:
         """`self.helper(args)`: interpret the helper's body with the parameters bound to the abstract arguments; OS calls
         and File stores inside it are recorded for the calling method; the value is the union of what it returns."""
         if fn.name in self.stack:
@@ -161,14 +162,15 @@ class _Interp:
         if any(isinstance(x, (ast.Yield, ast.YieldFrom)) for x in ast.walk(fn)):
             self.fail(n, f'helper {fn.name} is a generator')
         decs = [_dotted(d.func if isinstance(d, ast.Call) else d) for d in fn.decorator_list]
-        params = a.args[(0 if 'staticmethod' in decs else 1):] + a.kwonlyargs
+        static = static or 'staticmethod' in decs
+        params = a.args[(0 if static else 1):] + a.kwonlyargs
         names = [p.arg for p in params]
         inner: dict[str, frozenset] = {}
         pos_defaults = dict(zip([p.arg for p in a.args][len(a.args) - len(a.defaults):], a.defaults))
         kw_defaults = {p.arg: dflt for p, dflt in zip(a.kwonlyargs, a.kw_defaults) if dflt is not None}
         for name, dflt in {**pos_defaults, **kw_defaults}.items():
             inner[name] = self.ev(dflt, {})
-        npos = len(a.args) - (0 if 'staticmethod' in decs else 1)
+        npos = len(a.args) - (0 if static else 1)
         if len(n.args) > npos:
             self.fail(n, f'too many positional arguments for helper {fn.name}')
         for p, arg in zip(names, n.args):
@@ -269,6 +271,10 @@ class _Interp:
         if (not self.chain and isinstance(n.func, ast.Attribute) and isinstance(n.func.value, ast.Name)
                 and n.func.value.id == 'self' and n.func.attr in self.helpers):
             return self.inline(n, self.helpers[n.func.attr], env)
+        # a function defined at module level (a helper moved out of the class): its body runs in place of the call, so an
+        # OS call inside it is a site of the calling method
+        if isinstance(n.func, ast.Name) and n.func.id not in env and n.func.id in self.module_funcs:
+            return self.inline(n, self.module_funcs[n.func.id], env, static=True)
         if isinstance(n.func, ast.Attribute):
             f = n.func
             if (f.attr == 'replace' and len(args) == 2 and not n.keywords and self.const_str(args[0], env) == '\\'
@@ -483,7 +489,9 @@ def translate() -> tuple[str, dict]:
     # methods of RawFileSystem called as `self.m(...)` are inlined at the call (helpers extracted from the public methods)
     rname = resolve_method_name(classes['RawFileSystem'])
     raw_methods = {fn.name: fn for fn in _methods(classes['RawFileSystem'])}
-    helpers = {k: v for k, v in raw_methods.items() if k not in ('__init__', rname, '__repr__')}
+    helpers: dict = {k: v for k, v in raw_methods.items() if k not in ('__init__', rname, '__repr__')}
+    module_funcs = {n.name: n for n in tree.body if isinstance(n, ast.FunctionDef)}
+    helpers['=module'] = module_funcs
     inside_raw = {id(x) for x in ast.walk(classes['RawFileSystem'])}
     used_outside = {x.attr for x in ast.walk(tree) if isinstance(x, ast.Attribute) and id(x) not in inside_raw}
     # (calls made by the methods interpreted below: a helper used only by _resolve_path / __init__, which the guard
@@ -533,7 +541,7 @@ def translate() -> tuple[str, dict]:
     for fn in _methods(classes['FileSystemChain']):
         if fn.name in ('__init__', '__repr__', '__eq__', '__hash__', 'add_sys', 'get_system'):
             continue
-        it = _Interp('FileSystemChain', fn, chain=True, consts=consts)
+        it = _Interp('FileSystemChain', fn, chain=True, helpers={'=module': module_funcs}, consts=consts)
         it.run()
         if it.sites:
             other_sites += [('FileSystemChain', fn.name, c, ln) for c, _, ln, _ in it.sites]
